@@ -177,6 +177,19 @@ def sparse_case(case):
             return {"v": [], "stats": {"evals": 1, "skipped_dynamic_empty_selection": 1}}     # KF-C07-1 (reported by C07)
         raise
     nsel = _check_point(model, X, declared, "end", where, v)
+    # ... and the same on the estimator a worker / a file / a pipeline copy hands back (pickle, deepcopy, cloudpickle round trips)
+    from mc import transport
+    model.__dict__.pop("_update_weights", None)          # the harness' own wrapper (a local function) is not part of the estimator
+    for kind_, cp_ in transport.copies(model, transport.KINDS if route == "ctor" else (transport.pick(case),)):
+        if isinstance(cp_, Exception):
+            v.append(violation("transported_copy_differs", {"transport": kind_, "error": repr(cp_)[:200]}, **where))
+            continue
+        try:
+            n2 = _check_point(cp_, X, declared, "after_" + kind_, where, v)
+            if n2 != nsel or not all(np.array_equal(a, b) for a, b in zip(cp_._get_weights(), model._get_weights())):
+                v.append(violation("transported_copy_differs", {"transport": kind_, "selected": n2, "selected_before": nsel}, **where))
+        except Exception as e:  # noqa
+            v.append(violation("transported_copy_differs", {"transport": kind_, "error": repr(e)[:200]}, **where))
     # groups_ = declared list completed by singletons (a partition)
     if declared is None:
         if model.groups_ is not None:
